@@ -984,6 +984,10 @@ func (e *E3) g2(r *Result, prefix string, f *Flow) {
 			r.table(p, rule, construct, p.instrPos(in), true, "size is the result of "+g+", which returns it only after an upper-bound comparison")
 			return
 		}
+		if why := e.sizeBoundedAtCallers(f, fn, size, 0); why != "" {
+			r.table(p, rule, construct, p.instrPos(in), true, why)
+			return
+		}
 		r.table(p, rule, construct, p.instrPos(in), false, "peer-controlled size "+root.Name()+"="+root.String()+" reaches the allocation without a dominating upper bound")
 	}
 	for _, fn := range e.order {
@@ -2008,4 +2012,63 @@ func reviewedPanicByMessage(pkgPath, msg string) (string, bool) {
 		}
 	}
 	return reason, found == 1
+}
+
+// sizeBoundedAtCallers: size is a parameter of fn, and at every in-region static
+// call site the argument is bounded by one of G2's own criteria (len-derived,
+// dominated by an upper bound and non-negative, at most 16 bits wide, or the
+// result of a function that bounds it) — a bound check left in the caller when
+// the allocation was moved into a helper.
+func (e *E3) sizeBoundedAtCallers(f *Flow, fn *ssa.Function, size ssa.Value, depth int) string {
+	prm, ok := intRootNoVar(size).(*ssa.Parameter)
+	if !ok || depth > 2 {
+		return ""
+	}
+	idx := -1
+	for i, q := range fn.Params {
+		if q == prm {
+			idx = i
+		}
+	}
+	if idx < 0 {
+		return ""
+	}
+	sites := 0
+	for _, ed := range e.p.CallGraph().in[fn] {
+		call, ok := ed.Site.(ssa.CallInstruction)
+		if !ok || ed.Kind != "static" || !f.Region[ed.Caller] {
+			if f.Region[ed.Caller] && ed.Kind != "static" {
+				return ""
+			}
+			continue
+		}
+		args := allArgs(call)
+		if idx >= len(args) {
+			return ""
+		}
+		a := args[idx]
+		m := f.matcherFor(ed.Caller)
+		st := f.StateAt(call)
+		okArg := false
+		switch {
+		case !e.t.Is(a), lenDerived(m, a, 0), narrowBounded(m, a, 0):
+			okArg = true
+		case st.Has("v:ub:" + canon(a)):
+			okArg = isUnsigned(a) || st.Has("v:lb0:"+canon(a)) || arithNonNeg(m, a, 0)
+		default:
+			if ok2, _ := e.boundedResult(f, m, a); ok2 {
+				okArg = true
+			} else if e.sizeBoundedAtCallers(f, ed.Caller, a, depth+1) != "" {
+				okArg = true
+			}
+		}
+		if !okArg {
+			return ""
+		}
+		sites++
+	}
+	if sites == 0 {
+		return ""
+	}
+	return fmt.Sprintf("size is a parameter that is bounded at all %d call site(s) of %s", sites, e.p.FuncName(fn))
 }
